@@ -66,6 +66,17 @@ def _make_function(family: str, p: list[float]):
     if family == "nonfinite_nodes":    # smooth, but non-finite at isolated abscissae
         m = 5 + int(abs(k) * 20)
         return lambda x: (math.nan if _bits(x) % m == 0 else (math.inf if _bits(x) % m == 1 else math.cos(3 * x) + 2))
+    if family == "log_sing":           # integrable, value exactly -inf at the singular point
+        return lambda x: math.log(abs(x - c)) if x != c else -math.inf
+    if family == "neg_inv_sqrt":       # integrable, -inf at the singular point
+        return lambda x: (-1 / math.sqrt(abs(x - c))) if x != c else -math.inf
+    if family == "neginf_nodes":       # smooth, but exactly -inf at isolated abscissae
+        m = 5 + int(abs(k) * 20)
+        return lambda x: (-math.inf if _bits(x) % m == 0 else math.sin(2 * x) - 3)
+    if family == "mixed_nonfinite":    # +inf / -inf / nan at isolated abscissae, -inf at the point c
+        m = 7 + int(abs(k) * 20)
+        return lambda x: (-math.inf if x == c else
+                          (math.nan, math.inf, -math.inf)[_bits(x) % 3] if (_bits(x) >> 2) % m == 0 else math.cos(3 * x) + 2)
     if family == "isolated_dev":       # 1 except at isolated abscissae that only deeper rules sample
         m = 3 + int(abs(k) * 12)
         return lambda x: 2.0 if (_bits(x) >> 3) % m == 0 else 1.0
@@ -80,7 +91,8 @@ def _make_function(family: str, p: list[float]):
 
 
 FAMILIES = ["smooth_exp", "smooth_sin", "poly", "const", "peaked", "step", "kink", "sqrt_sing", "inv_sqrt",
-            "nonfinite_nodes", "isolated_dev", "divergent", "divergent_abs", "divergent_pow"]
+            "nonfinite_nodes", "isolated_dev", "divergent", "divergent_abs", "divergent_pow",
+            "log_sing", "neg_inv_sqrt", "neginf_nodes", "mixed_nonfinite"]
 BOUNDS = [(0, 1), (-1, 1), (0.0, 3.0), (-2.5, 7.25), (1e-3, 1e3), (-1, 0), (0, 1e-6), (3, 4)]
 
 
@@ -88,7 +100,8 @@ def draw_config(rng, family=None):
     family = family or rng.choice(FAMILIES)
     lo, hi = rng.choice(BOUNDS)
     r = rng.random()
-    if family in ("divergent", "divergent_abs", "divergent_pow", "inv_sqrt", "sqrt_sing") and r < 0.6:
+    if family in ("divergent", "divergent_abs", "divergent_pow", "inv_sqrt", "sqrt_sing",
+                  "log_sing", "neg_inv_sqrt", "mixed_nonfinite") and r < 0.6:
         c = lo if rng.random() < 0.7 else (lo + hi) / 2          # singular at an end point / at the first midpoint
     elif r < 0.5:
         c = lo + (hi - lo) * rng.random()
